@@ -19,7 +19,7 @@ ResetData ==
 TInit == DInit /\ l = 1
 TNext ==
   \/ IsEv("Reset") /\ ResetData
-  \/ Skip("begin") \/ Skip("run_loop") \/ Skip("loop_return") \/ Skip("exit") \/ Skip("destroy")
+  \/ Skip("begin") \/ Skip("cleanup_call") \/ Skip("cleanup_ret") \/ Skip("run_loop") \/ Skip("loop_return") \/ Skip("exit") \/ Skip("destroy")
   \/ IsEv("push_in") /\ DPushIn(Ev.t, Ev.th, Ev.wrote)
   \/ IsEv("push_next") /\ DPushNext(Ev.t, Ev.th)
   \/ IsEv("start_locked") /\ DStartLocked(Ev.n, Ev.wrote)
